@@ -47,9 +47,9 @@ class Site:
         return "%s %s %s" % (summ.fn_key(self.fn), self.kind, self.text)
 
 
-def collect(F, fn, inline=None, max_visits=2, engine=None):
+def collect(F, fn, inline=None, max_visits=2, engine=None, models=None):
     """-> (list of Site, list of paths). One Site per (path, event); callers group by key()."""
-    eng = engine or sym.Engine(F, inline=inline or (lambda f, ev: f.argc == 0), max_visits=max_visits)
+    eng = engine or sym.Engine(F, inline=inline or (lambda f, ev: f.argc == 0), max_visits=max_visits, models=models, max_depth=10)
     paths = [p for p in eng.run(fn) if p.status != "infeasible"]
     out = []
     ub = 0
@@ -82,12 +82,12 @@ def collect(F, fn, inline=None, max_visits=2, engine=None):
     return out, paths, ub
 
 
-def run_sites(run_, rule, F, fns, discharge, inline=None, max_visits=2):
+def run_sites(run_, rule, F, fns, discharge, inline=None, max_visits=2, models=None):
     """discharge(site) -> reason string or None. Groups identical sites over paths; all must be discharged."""
     total = 0
     for fn in fns:
         mv = 20 if (fn.name == "finalize" and "CrcModifier" in (fn.impl_self or "")) else max_visits
-        sites, paths, ub = collect(F, fn, inline=inline, max_visits=mv)
+        sites, paths, ub = collect(F, fn, inline=inline, max_visits=mv, models=models)
         groups = {}
         for s in sites:
             groups.setdefault(s.key(), []).append(s)
